@@ -195,3 +195,22 @@ func ErrClass(err error) string {
 	}
 	return s
 }
+
+// ErrChain joins the messages of err and of everything it wraps (errs-go keeps only the outermost message in Error()).
+func ErrChain(err error) string {
+	if err == nil {
+		return ""
+	}
+	out := err.Error()
+	switch u := err.(type) {
+	case interface{ Unwrap() []error }:
+		for _, e := range u.Unwrap() {
+			out += " | " + ErrChain(e)
+		}
+	case interface{ Unwrap() error }:
+		if e := u.Unwrap(); e != nil {
+			out += " | " + ErrChain(e)
+		}
+	}
+	return out
+}
